@@ -6,7 +6,6 @@ import (
 	"strings"
 
 	"golang.org/x/tools/go/ssa"
-
 )
 
 // combinators.go — C13.R10: the And / Or matcher combinators, evaluated symbolically (symeval.go).
